@@ -137,56 +137,106 @@ def rule_core(repo, rep):
         rep.derived(Rg, sup + '.fit', s)
     # default n_constraints = 20 * n_classes ** 2
     if 'n_constraints' in hyper_map:
-      Rd = 'R-FORM:default-n-constraints'
-      rep.rule(Rd, 'when n_constraints is None it is 20 * (number of '
-               'classes in y) ** 2')
-      found = None
-      # the local that holds the hyper-parameter (found by role)
-      holders = set(n.targets[0].id for n in ast.walk(fs.node)
-                    if isinstance(n, ast.Assign) and
-                    isinstance(n.targets[0], ast.Name) and
-                    ast.unparse(n.value) == 'self.n_constraints')
-      for n in ast.walk(fs.node):
-        if isinstance(n, ast.Assign) and isinstance(n.targets[0], ast.Name) \
-                and n.targets[0].id in holders and \
-                '%s is None' % n.targets[0].id in \
-                astutil.path_condition(fs.node, n):
-          found = n
-      if found is None:
-        rep.unknown(Rd, sup + '.fit', site(fs), 'default not found')
-      else:
-        e = found.value
-        k = p = var = None
-        if isinstance(e, ast.BinOp) and isinstance(e.op, ast.Mult):
-          a, b = e.left, e.right
-          if isinstance(b, ast.Constant):
-            a, b = b, a
-          if isinstance(a, ast.Constant) and isinstance(b, ast.BinOp) and \
-                  isinstance(b.op, ast.Pow) and \
-                  isinstance(b.right, ast.Constant):
-            k, p = a.value, b.right.value
-            var = b.left.id if isinstance(b.left, ast.Name) else b.left
-        if k is None:
-          rep.unknown(Rd, sup + '.fit', site(fs, found),
-                      'unrecognised default %s' % ast.unparse(e))
-        else:
-          src = None
-          if not isinstance(var, str):
-            src, var = ast.unparse(var), '<inline>'
-          for n in ast.walk(fs.node):
-            if isinstance(n, ast.Assign) and \
-                    isinstance(n.targets[0], ast.Name) and \
-                    n.targets[0].id == var:
-              src = ast.unparse(n.value)
-          if k == 20 and p == 2 and src in ('len(np.unique(y))',
-                                            'np.unique(y).size',
-                                            'np.unique(y).shape[0]',
-                                            'len(set(y))'):
-            rep.derived(Rd, sup + '.fit', site(fs, found))
-          else:
-            rep.refuted(Rd, sup + '.fit', site(fs, found),
-                        'default is %s with %s = %s' % (ast.unparse(e), var,
-                                                        src))
+      _default_n_constraints(repo, rep, sup, cs, fs, gname)
+
+
+class _Reached(Exception):
+  pass
+
+
+def _default_n_constraints(repo, rep, sup, cs, fs, gname):
+  """interpret <sup>.fit up to the generator call for n_constraints in
+  {None, 7} and 2, 3, 5 classes; the argument received by the generator is
+  7, resp. 20 * classes ** 2 (any spelling, helper or inline)"""
+  from ..minterp import Interp, World, Undecided, Lib
+  from .c07b import S, tg
+  Rd = 'R-INTERP:default-n-constraints'
+  rep.rule(Rd, 'the supervised fit, interpreted up to its call of the '
+           'constraint generator with n_constraints in {None, 7} and 2, 3, '
+           '5 distinct labels, hands the generator 7, resp. 20 * (number '
+           'of classes) ** 2')
+  init = repo.resolve_method(cs, '__init__')
+  defaults = {}
+  if init is not None:
+    a = init.node.args
+    names = [x.arg for x in a.args]
+    for nm, dv in zip(names[len(names) - len(a.defaults):], a.defaults):
+      try:
+        defaults[nm] = ast.literal_eval(dv)
+      except Exception:
+        pass
+
+  class W(World):
+    def __init__(self, nc, classes):
+      self.nc, self.classes, self.got = nc, classes, None
+
+    def attr(self, it, v, attr, node):
+      if v == S('self'):
+        if attr == 'n_constraints':
+          return self.nc
+        if attr in defaults:
+          return defaults[attr]
+        return S('hp', attr)
+      if v == S('uniq') and attr == 'size':
+        return self.classes
+      if v == S('uniq') and attr == 'shape':
+        return (self.classes,)
+      return NotImplemented
+
+    def call(self, it, d, recv, args, kwargs, node):
+      if d == 'len' and args and args[0] == S('uniq'):
+        return self.classes
+      if d == 'len' and args and args[0] in (S('y'), S('X')):
+        return 37           # number of samples: unrelated to the classes
+      if d == 'set' and args and args[0] == S('y'):
+        return S('uniq')
+      if d.startswith('.'):
+        if tg(recv) == 'cons' and d == '.' + gname:
+          self.got = kwargs.get('n_constraints', args[0] if args else None)
+          raise _Reached()
+        if recv == S('self') and d == '._prepare_inputs':
+          return (S('X'), S('y'))
+        return NotImplemented
+      if d.endswith('.Constraints') and d.startswith('metric_learn'):
+        return S('cons')
+      if d == 'numpy.unique' and args and args[0] == S('y') and not kwargs:
+        return S('uniq')
+      if d == 'numpy.unique' and args and args[0] == S('y') and \
+              set(kwargs) == {'return_counts'}:
+        from ..minterp import Arr
+        return (S('uniq'), Arr([3] * self.classes))
+      if not d.startswith('metric_learn') and d not in ('len', 'set'):
+        return S('lib', d)
+      return NotImplemented
+
+    def compare(self, it, op, a, b, node):
+      return NotImplemented
+  bad = unk = None
+  for nc in (None, 7):
+    for classes in (2, 3, 5):
+      w = W(nc, classes)
+      it = Interp(repo, fs, w)
+      env = dict((p_, S(p_)) for p_ in fs.params())
+      env['self'] = S('self')
+      try:
+        it.run(env)
+        unk = unk or 'the generator call is not reached'
+        continue
+      except _Reached:
+        pass
+      except Undecided as u:
+        unk = unk or str(u)
+        continue
+      want = 7 if nc is not None else 20 * classes ** 2
+      if w.got != want:
+        bad = bad or 'with n_constraints=%r and %d classes the generator ' \
+            'receives %r, documented %r' % (nc, classes, w.got, want)
+  if bad:
+    rep.refuted(Rd, sup + '.fit', site(fs), bad)
+  elif unk:
+    rep.unknown(Rd, sup + '.fit', site(fs), unk)
+  else:
+    rep.derived(Rd, sup + '.fit', site(fs))
 
 
 def rule_frame(repo, rep):
